@@ -635,6 +635,45 @@ def same_value(a, b) -> bool:
 OPEN_WITNESSES: Dict[str, str] = {}
 _reported_open = set()
 
+# One defect usually fails many generated programs.  core.finish prints the five smallest failing cases; so that several
+# defects with different symptoms all show up there, at most MAX_PER_SYMPTOM failing inputs per symptom are handed on
+# (the first ones met: the corpus runs first), the rest are counted in the histogram "failing_inputs_not_listed".
+# Cases recorded in KNOWN_FINDINGS.txt are never held back and never use up a slot.
+MAX_PER_SYMPTOM = 2
+_symptom_count: Dict[str, int] = {}
+_known_keys: Dict[str, Any] = {}
+
+
+def symptom_of(why: str) -> str:
+    if "is not a Python expression" in why:
+        return "recorded lambda is not an expression"
+    if why.startswith("python computes"):
+        tail = why.rsplit(" computes ", 1)[-1]
+        return "value: recorded lambda " + (tail[:40].split(" (")[0] if tail.startswith("raises ") else "computes something else")
+    if why.startswith("check_ast gave"):
+        return "gate"
+    if why.startswith("parse_as_ast raised"):
+        return "crash: " + why.split(" ")[2]
+    if why.startswith("recorded lambda changed"):
+        return "history"
+    return why[:40]
+
+
+def report_failing_input(ctx, prop: str, case, what: str, why: str, w):
+    if prop not in _known_keys:
+        _known_keys[prop] = core.load_known(prop)
+    if case.key() not in _known_keys[prop]:
+        sym = symptom_of(why)
+        n = _symptom_count.get((prop, sym), 0)
+        _symptom_count[(prop, sym)] = n + 1
+        if n >= MAX_PER_SYMPTOM:
+            ctx.count("failing_inputs_not_listed", sym)
+            if n == MAX_PER_SYMPTOM:
+                ctx.notes.append("more than %d failing inputs with the symptom `%s`: further ones are only counted "
+                                 "(histogram failing_inputs_not_listed)" % (MAX_PER_SYMPTOM, sym))
+            return
+    ctx.fail("failing-input", what, w, key=case.key())
+
 
 def check_case(ctx, prop: str, case: Case, data, pending: list, extra_oracle=None):
     """Runs the implementation and the oracles; queues the model request.  Returns nothing; failures go to ctx."""
@@ -724,7 +763,7 @@ def check_shot(ctx, prop: str, case: Case, rec, data, pending: list, extra_oracl
                 _reported_open.add(wkey)
                 print("KNOWN-FINDING: property=%s %s: `%s` -> %s" % (prop, wkey, case.lam, why[:300]))
         else:
-            ctx.fail("failing-input", "%s: `%s`%s -> %s" % (prop, case.lam, nth, why), w, key=case.key())
+            report_failing_input(ctx, prop, case, "%s: `%s`%s -> %s" % (prop, case.lam, nth, why), why, w)
     mi = rec.mi
     if rec.unreported:
         ctx.count("model", "closure-cell-not-reported-by-inspect(bound-only or CPython quirk)")
